@@ -339,3 +339,8 @@ def run(cx, rep):
     rep.ob("C10.ctl", "ambient", amb >= 7, "canary: expected >= 7 ambient calls, got %d" % amb, sample={"canary_ambient_calls": amb})
     rep.ob("C10.ctl", "statics", len([s for s in C.statics if not s["nested"]]) >= 4,
            "canary: expected >= 4 statics, got %d" % len(C.statics), sample={"canary_statics": [s["id"] for s in C.statics]})
+
+    # ---------------------------------------------------------------- C10.6
+    rep.rule("C10.6", "twin accessors of the module tables agree (type / value)")
+    import twins
+    twins.twin_rule(cx, rep, "C10.6", r"swc_tools/", floor=2)
